@@ -294,11 +294,40 @@ def run_chain(ctx, idx, rng, tmp):
                     m[int(rng.integers(0, len(src)))] = True
                 src.filter.manual[:] = m
                 src.apply_filter()
+                sel_src = m
+                if hd and rng.random() < 0.5:
+                    # history: after the member's own exclusions were applied, the filter of
+                    # its parent is edited and the change reaches the member only through
+                    # the member's rejuvenate() (the documented way)
+                    par = src.hparent
+                    pm = np.array(par.filter.manual, dtype=bool, copy=True)
+                    flip = rng.random(len(pm)) < 0.35
+                    pm[flip] = ~pm[flip]
+                    if not pm.any():
+                        pm[int(rng.integers(0, len(pm)))] = True
+                    par.filter.manual[:] = pm
+                    src.rejuvenate()
+                    if filtered and not np.any(src.filter.all):
+                        src.filter.manual[:] = True
+                        src.apply_filter()
+                    # the events behind the member now: composed from the observable filter
+                    # arrays of the chain (root file first)
+                    chain_ds = []
+                    d_ = src
+                    while d_.format == "hierarchy":
+                        d_ = d_.hparent
+                        chain_ds.append(d_)
+                    ridx = root_idx
+                    for d_ in reversed(chain_ds):
+                        ridx = ridx[np.asarray(d_.filter.all, dtype=bool)]
+                    sel_src = np.array(src.filter.all, dtype=bool, copy=True)
+                    via += "+parent-edited-then-rejuvenate"
+                    ctx.count("chain_exports_after_parent_edit_and_rejuvenate")
                 feats = [f for f in ALL if rng.random() < 0.3]
                 src.export.hdf5(out, features=feats, filtered=filtered, basins=True,
                                 override=True)
                 if filtered:
-                    ridx = ridx[m]
+                    ridx = ridx[sel_src]
                 root_idx = ridx
                 for c in closers:
                     c.close()
